@@ -116,6 +116,8 @@ mmd_engine * mmd_engine_create(DString * d, unsigned long extensions) {
 
 		e->recurse_depth = 0;
 
+		e->random_seed_base_labels = 0;
+
 		e->allow_meta = (extensions & EXT_COMPATIBILITY) ? false : true;
 
 		if (e->allow_meta) {
